@@ -85,6 +85,20 @@ def work(item):
             prob, info = float_check(m, degree, periodic, breaks, uf, [1.0] * (ncells + (0 if periodic else degree)), T)
             if kind == 'exc' and prob and prob.startswith('exception'):
                 res['violations'].append(('quadrature:%s:exception' % cls, '%r: %s' % (item[:5], prob), dict(kind='quad', item=[str(v) for v in item[:5]], concrete=prob)))
+                continue
+            # the symbolic run stopped in something the exact environment does not model (a new library call): no proof is
+            # possible, but the real float code may still exhibit a disagreement with the exact integral on concrete data
+            rng = np.random.RandomState(17)
+            nd = ncells + (0 if periodic else degree)
+            for trial in range(4):
+                data = [1.0] * nd if trial == 0 else [float(x) for x in rng.rand(nd) * 2 - 1]
+                prob, info = float_check(m, degree, periodic, breaks, uf, data, T)
+                if prob:
+                    break
+            if prob:
+                res['violations'].append(('quadrature:%s' % cls, 'degree %d %s %s cells=%d path=%s: %s (witness from the float run; symbolic run: %s %s)' % (
+                    degree, 'periodic' if periodic else 'clamped', family, ncells, path, prob, kind, str(val)[:80]),
+                    dict(kind='quad', item=[str(v) for v in item[:5]], concrete=prob, info=info)))
             else:
                 res['inconclusive'].append('quadrature: %s %r %r' % (kind, val, item[:5]))
             continue
